@@ -253,8 +253,14 @@ func checkFunction(f *ssa.Function, sm *df.SummaryGraph, rec *summRec, matoms ma
 					if c.Common().StaticCallee() == nil {
 						continue
 					}
+					atom := "tgt:callarg-nonode"
+					switch c.Common().StaticCallee().Name() {
+					case "append", "cap", "len", "copy", "close", "delete", "min", "max", "clear", "print", "println", "recover", "new", "make", "panic", "complex", "real", "imag":
+						// a user function or METHOD whose name equals a builtin's
+						atom = "tgt:callarg-nonode-builtin-name"
+					}
 					for _, av := range argVals0 {
-						addT(av, target{"argument of " + ins.String() + " (call has no call node in the summary)", nil, "tgt:callarg-nonode"})
+						addT(av, target{"argument of " + ins.String() + " (call has no call node in the summary)", nil, atom})
 					}
 					continue
 				}
